@@ -2,9 +2,9 @@
    Only the directives of ExtrOcamlBasic are used. *)
 Require Extraction.
 Require Import ExtrOcamlBasic.
-From SV Require Import Checkers.Driver.
+From SV Require Import Checkers.Driver Checkers.HibitChk.
 Cd "../ocaml".
 Extraction "model.ml" model_transcript verdict zlists_eqb derive_line dispatch_model dispatch_verdict
   conc_transcript conc_verdict conc_enum saveload_transcript
-  unwind_transcript unwind_verdict.
+  unwind_transcript unwind_verdict hibit_transcript.
 Cd "../coq".
